@@ -153,13 +153,7 @@ def compose_items(r):
     return items
 
 
-def gen_struct(idx):
-    name = "R%d" % idx
-    nf = rng.randint(1, 5)
-    rule = rng.choice([None, None, None] + RULES)
-    container_default = rng.random() < 0.4
-    allow_unknown = rng.random() < 0.2
-    container_post = rng.choice([None, None, None, None, ("map", "fns::id"), ("and_then", "fns::ok")])
+def gen_fields(nf, allow_flatten=True):
     fields = []
     used = set()
     has_flatten = False
@@ -177,7 +171,7 @@ def gen_struct(idx):
         else:
             ty = rng.choice(LEAVES)
         # flatten?
-        if not has_flatten and rng.random() < 0.15:
+        if allow_flatten and not has_flatten and rng.random() < 0.15:
             cands = [t for t in types_by_name.values() if t.flattenable and t.depth < 3] + [FLAT_MAP]
             ty = rng.choice(cands)
             f["flatten"] = True
@@ -229,20 +223,33 @@ def gen_struct(idx):
                 opts.append('default = "%s"' % fn)
         f["opts"] = opts
         fields.append(f)
-    # container default needs Default for every field type
-    if container_default and not all(f["ty"].has_default for f in fields):
-        container_default = False
-    # effective names, requiredness
+    return fields, has_flatten, depth
+
+
+def finish_fields(fields, rule, container_default):
+    """effective names and requiredness; None when effective names collide"""
     for f in fields:
         f["name"] = f.get("rename") or to_field(rule, f["ident"])
         f["addressable"] = not f["skip"] and not f["flatten"]
         has_dflt = f["default"] is not None or container_default or f["skip"]
         f["required"] = f["addressable"] and not f["multiple"] and not has_dflt and not f["ty"].optional
-    # distinct effective names
     names = [f["name"] for f in fields if f["addressable"]]
-    if len(set(names)) != len(names):
+    return len(set(names)) == len(names)
+
+
+def gen_struct(idx):
+    name = "R%d" % idx
+    nf = rng.randint(1, 5)
+    rule = rng.choice([None, None, None] + RULES)
+    container_default = rng.random() < 0.4
+    allow_unknown = rng.random() < 0.2
+    container_post = rng.choice([None, None, None, None, ("map", "fns::id"), ("and_then", "fns::ok")])
+    fields, has_flatten, depth = gen_fields(nf)
+    # container default needs Default for every field type
+    if container_default and not all(f["ty"].has_default for f in fields):
+        container_default = False
+    if not finish_fields(fields, rule, container_default):
         return None
-    # a flatten child must not claim names of the parent (keeps the templates simple)
     r = dict(kind="struct", name=name, fields=fields, rule=rule, container_default=container_default,
              allow_unknown=allow_unknown, container_post=container_post, has_flatten=has_flatten, depth=depth + 1)
     return r
@@ -514,10 +521,187 @@ def info_enum(e, out):
     out.append("}")
 
 
+
+# ---------------------------------------------------------------- element-level receivers
+
+ATTR_NAMES = ["my", "conf", "opt", "x_attr"]
+outer = []          # dicts
+ff_names, fv_names = [], []
+
+
+def gen_outer(idx, kind):
+    name = "%s%d" % (kind, idx)
+    rule = rng.choice([None, None, None] + RULES)
+    nf = rng.randint(0, 3)
+    fields, has_flatten, depth = gen_fields(nf)
+    # avoid field identifiers that collide with magic names (none of IDENTS do) and container defaults
+    if not finish_fields(fields, rule, False):
+        return None
+    k = rng.randint(1, 3)
+    attr_names = rng.sample(ATTR_NAMES, k)
+    fwd = rng.choice([None, None, "all", "list", "empty"]) if kind != "FA" or True else None
+    magic = []
+    pool = {"FD": ["ident", "vis", "generics"], "FF": ["ident", "vis", "ty"], "FV": ["ident", "discriminant"],
+            "FT": ["ident", "bounds", "default"], "FA": []}[kind]
+    for m in pool:
+        if rng.random() < 0.5:
+            magic.append(m)
+    attrs_field = None
+    if fwd is not None and rng.random() < 0.8:
+        attrs_field = rng.choice(["plain", "plain", "count", "fail"])
+    body = None
+    if kind == "FD" and rng.random() < 0.6:
+        v = rng.choice(["()", "syn::Ident"] + fv_names[-3:])
+        f = rng.choice(["()", "syn::Type"] + ff_names[-3:])
+        body = ("data", rng.choice(["ast::Data<%s, %s>" % (v, f)] * 4 + ["kind"]))
+    if kind == "FV" and rng.random() < 0.6:
+        f = rng.choice(["()", "syn::Type"] + ff_names[-3:])
+        body = ("fields", "ast::Fields<%s>" % f)
+    supports = None
+    if kind == "FD" and rng.random() < 0.35:
+        words = ["any", "struct_any", "struct_named", "struct_tuple", "struct_newtype", "struct_unit", "enum_any", "enum_named",
+                 "enum_tuple", "enum_newtype", "enum_unit"]
+        supports = rng.sample(words, rng.randint(1, 3))
+    if kind == "FV" and rng.random() < 0.35:
+        supports = rng.sample(["any", "named", "tuple", "newtype", "unit"], rng.randint(1, 2))
+    from_ident = kind == "FD" and rng.random() < 0.2 and not has_flatten and all(
+        f["ty"].rust in ("u8", "String", "i64", "bool", "Option<u8>", "Option<String>") or f["multiple"] for f in fields) \
+        and attrs_field is None and body is None and set(magic) <= {"ident"}
+    if from_ident:
+        magic = ["ident"]
+        for f in fields:
+            # `from_ident` behaves like a container default
+            f["required"] = False
+    allow_unknown = rng.random() < 0.15
+    return dict(kind=kind, name=name, rule=rule, fields=fields, attr_names=attr_names, fwd=fwd, magic=magic, attrs_field=attrs_field,
+                body=body, supports=supports, from_ident=from_ident, allow_unknown=allow_unknown, has_flatten=has_flatten)
+
+
+MAGIC_TY = {("FD", "ident"): "syn::Ident", ("FD", "vis"): "syn::Visibility", ("FD", "generics"): "syn::Generics",
+            ("FF", "ident"): "Option<syn::Ident>", ("FF", "vis"): "syn::Visibility", ("FF", "ty"): "syn::Type",
+            ("FV", "ident"): "syn::Ident", ("FV", "discriminant"): "Option<syn::Expr>",
+            ("FT", "ident"): "syn::Ident", ("FT", "bounds"): "Vec<syn::TypeParamBound>", ("FT", "default"): "Option<syn::Type>"}
+DERIVE = {"FD": "FromDeriveInput", "FF": "FromField", "FV": "FromVariant", "FT": "FromTypeParam", "FA": "FromAttributes"}
+
+
+def emit_outer(r, out):
+    cattrs = ["attributes(%s)" % ", ".join(r["attr_names"])]
+    if r["fwd"] == "all":
+        cattrs.append("forward_attrs")
+    elif r["fwd"] == "list":
+        cattrs.append("forward_attrs(doc, allow)")
+    elif r["fwd"] == "empty":
+        cattrs.append("forward_attrs()")
+    if r["rule"]:
+        cattrs.append('rename_all = "%s"' % r["rule"])
+    if r["supports"]:
+        cattrs.append("supports(%s)" % ", ".join(r["supports"]))
+    if r["from_ident"]:
+        cattrs.append("from_ident")
+    if r["allow_unknown"]:
+        cattrs.append("allow_unknown_fields")
+    rng.shuffle(cattrs)
+    out.append("#[derive(%s)]" % DERIVE[r["kind"]])
+    if len(cattrs) > 1 and rng.random() < 0.4:
+        out.append("#[darling(%s)]" % cattrs[0])
+        out.append("#[darling(%s)]" % ", ".join(cattrs[1:]))
+    else:
+        out.append("#[darling(%s)]" % ", ".join(cattrs))
+    out.append("pub struct %s {" % r["name"])
+    members = []
+    for m in r["magic"]:
+        members.append((m, MAGIC_TY[(r["kind"], m)], None))
+    if r["attrs_field"]:
+        if r["attrs_field"] == "plain":
+            members.append(("attrs", "Vec<syn::Attribute>", None))
+        elif r["attrs_field"] == "count":
+            members.append(("attrs", "usize", "with = fns::attrs_count"))
+        else:
+            members.append(("attrs", "usize", "with = fns::attrs_fail"))
+    if r["body"]:
+        if r["body"][1] == "kind":
+            members.append(("data", "String", "with = fns::data_kind"))
+        else:
+            members.append((r["body"][0], r["body"][1], None))
+    for f in r["fields"]:
+        members.append((f["ident"], f["ty"].rust, ", ".join(f["opts"]) if f["opts"] else None))
+    rng.shuffle(members)
+    for (ident, ty, opt) in members:
+        if opt:
+            out.append("    #[darling(%s)]" % opt)
+        out.append("    pub %s: %s," % (ident, ty))
+    out.append("}")
+    r["members"] = members
+    if r["from_ident"]:
+        out.append("impl From<syn::Ident> for %s {" % r["name"])
+        out.append("    fn from(i: syn::Ident) -> Self {")
+        out.append("        %s {" % r["name"])
+        for (ident, ty, _) in members:
+            special = {"u8": "99", "i64": "-99", "String": "i.to_string()", "bool": "true", "Option<u8>": "Some(9)",
+                       "Option<String>": "Some(i.to_string())", "syn::Ident": "i.clone()", "Vec<u8>": "vec![9]",
+                       "Vec<String>": "vec![i.to_string()]", "Vec<i64>": "vec![-9]", "Vec<bool>": "vec![true]", "Vec<char>": "vec!['i']"}
+            out.append("            %s: %s," % (ident, special.get(ty, "Default::default()")))
+        out.append("        }")
+        out.append("    }")
+        out.append("}")
+    out.append("impl Canon for %s {" % r["name"])
+    out.append("    fn canon(&self) -> Sx {")
+    srt = sorted(members, key=lambda m: m[0])
+    out.append('        tagged("rec", vec![st("%s"), %s])' % (
+        r["name"], ", ".join('list(vec![st("%s"), self.%s.canon()])' % (m[0], m[0]) for m in srt)))
+    out.append("    }")
+    out.append("}")
+
+
+def info_outer(r, out):
+    out.append("fn info_%s() -> OuterInfo {" % r["name"])
+    out.append("    OuterInfo {")
+    out.append('        base: RecvInfo { name: "%s", is_enum: false, allow_unknown: %s, has_flatten: %s,' % (
+        r["name"], "true" if r["allow_unknown"] else "false", "true" if r["has_flatten"] else "false"))
+    out.append("            fields: vec![")
+    for f in r["fields"]:
+        if not f["addressable"]:
+            continue
+        ty = f["elem"] if f["multiple"] else f["ty"]
+        out.append('                FieldInfo { name: "%s", required: %s, multiple: %s, valid: &[%s], invalid: &[%s] },' % (
+            f["name"], "true" if f["required"] else "false", "true" if f["multiple"] else "false",
+            ", ".join(rs(v) for v in ty.valid), ", ".join(rs(v) for v in ty.invalid)))
+    out.append("            ],")
+    flat = [f for f in r["fields"] if f["flatten"]]
+    out.append("            flat_items: &[%s], valid: &[], invalid: &[] }," % (", ".join("&[%s]" % ", ".join(rs(i) for i in items) for items in flat[0]["ty"].flat_items) if flat else ""))
+    out.append('        kind: "%s", attr_names: &[%s], from_ident: %s,' % (r["kind"], ", ".join(rs(a) for a in r["attr_names"]), "true" if r["from_ident"] else "false"))
+    out.append("    }")
+    out.append("}")
+
+
+def gen_outers(out, infos):
+    global outer
+    idx = 0
+    counts = {"FF": 0, "FV": 0, "FT": 0, "FD": 0, "FA": 0}
+    order = ["FF"] * 18 + ["FV"] * 14 + ["FT"] * 8 + ["FD"] * 30 + ["FA"] * 10
+    for kind in order:
+        while True:
+            idx += 1
+            r = gen_outer(idx, kind)
+            if r is not None:
+                break
+        emit_outer(r, out)
+        outer.append(r)
+        counts[kind] += 1
+        if kind == "FF":
+            ff_names.append(r["name"])
+        if kind == "FV":
+            fv_names.append(r["name"])
+    for r in outer:
+        info_outer(r, infos)
+    return counts
+
+
 def main():
     out = ["//! GENERATED by harness/gen/gen_fm.py — the compiled corpus of `FromMeta` receivers.",
-           "#![allow(dead_code, unused_imports, clippy::all)]",
-           "use crate::fns;", "use crate::recv::{FieldInfo, RecvInfo};", "use crate::sx::*;", "use crate::types::{mk, TyEntry};",
+           "#![allow(dead_code, unused_imports, non_snake_case, clippy::all)]",
+           "use crate::fns;", "use crate::recv::{FieldInfo, OuterEntry, OuterInfo, OuterRun, RecvInfo};", "use darling::ast;",
+           "use darling::{FromAttributes, FromDeriveInput, FromField, FromTypeParam, FromVariant};", "use crate::sx::*;", "use crate::types::{mk, TyEntry};",
            "use crate::vals::Canon;", "use darling::util::{Flag, Override, SpannedValue};", "use darling::FromMeta;",
            "use std::collections::HashMap;", ""]
     body = []
@@ -544,6 +728,7 @@ def main():
         receivers.append(r)
     for r in receivers:
         (info_struct if r["kind"] == "struct" else info_enum)(r, infos)
+    counts = gen_outers(body, infos)
     out += body
     out.append("")
     out += infos
@@ -563,8 +748,23 @@ def main():
             r["name"], r["name"], r["name"], r["name"]))
     out.append("    ]")
     out.append("}")
+    for r in outer:
+        out.append("fn vals_%s(_ident: &str) -> Vec<(String, Sx)> {" % r["name"])
+        if r["from_ident"]:
+            out.append('    vec![(format!("fromident:%s:{}", _ident), %s::from(syn::Ident::new(_ident, proc_macro2::Span::call_site())).canon())]' % (r["name"], r["name"]))
+        else:
+            out.append("    vec![]")
+        out.append("}")
+    out.append("pub fn outer_receivers() -> Vec<OuterEntry> {")
+    out.append("    vec![")
+    runner = {"FD": "Fdi(crate::recv::run_fdi::<%s>)", "FF": "Ff(crate::recv::run_ff::<%s>)", "FV": "Fv(crate::recv::run_fv::<%s>)",
+              "FT": "Ft(crate::recv::run_ft::<%s>)", "FA": "Fa(crate::recv::run_fa::<%s>)"}
+    for r in outer:
+        out.append("        OuterEntry { info: info_%s, run: OuterRun::%s, vals: vals_%s }," % (r["name"], runner[r["kind"]] % r["name"], r["name"]))
+    out.append("    ]")
+    out.append("}")
     open(OUT, "w").write("\n".join(out) + "\n")
-    print("structs", n_struct, "enums", n_enum)
+    print("structs", n_struct, "enums", n_enum, "outer", counts)
 
 
 if __name__ == "__main__":
